@@ -218,8 +218,10 @@ def gen_scenario(rng, mode):
         for j in jobs:
             j["group"] = 0
         sc["groups"][0]["procs"] = rng.choice([None, 1, 2, 3])
-    if mode in ODD_STATE_MODES and rng.random() < .6:
+    if mode in ODD_STATE_MODES and mode != "batchfaults" and rng.random() < .6:
         sc["oddStates"] = True
+    elif mode == "batchfaults" and random.Random("odd" + json.dumps(sc, sort_keys=True)).random() < .6:
+        sc["oddStates"] = True          # a stream of its own: the batch-fault scenarios are otherwise the ones they always were
     if mode in ("plain", "busy") and rng.random() < .3:
         sc["sharedHosts"] = True          # non-exclusive nodes: two batches of the submission on one host
     if mode == "resubmit":
